@@ -16,7 +16,8 @@ META = dict(
     watchdog_s={"quick": 1500, "thorough": 5400},
     evaluations_counter="cases",
     min={"cases": 3000, "judged:linear": 2000, "judged:exact": 800, "route:fn:qbytes_mm": 100, "route:fn:qbytes_int_mm": 100,
-         "route:fn:qbytes_int8pack_mm": 20, "route:op:qbytes_mm": 500, "judged:mm": 300, "judged:bmm": 100},
+         "route:fn:qbytes_int8pack_mm": 20, "route:op:qbytes_mm": 500, "judged:mm": 300, "judged:bmm": 100,
+         "products_after_inplace_weight_update": 100},
     anchors=["tensor/qtensor_func.py:QTensorLinear.forward",
              "library/qbytes_mm.py:qbytes_mm_impl_cpu",
              "library/qbytes_mm.py:qbytes_mm",
@@ -392,6 +393,19 @@ def run_case(ctx, oq, cfg, qmm, rng):
                     ctx.count("mm_per_axis_pairs")
                     judge(ctx, dict(cfg, bias=False), "mm:per_axis_l%d_r%d" % (la, ra), out, left, right, None,
                           transpose_w=False)
+    # 4. the same weight object serves several calls and is overwritten in place in between (swapping frozen weights): the
+    # next product must use what the weight holds now
+    if not lowbit and cfg["mode"] == "realistic" and cfg.get("wlay", "contiguous") == "contiguous" and exc is None \
+            and type(fp.unwrap_param(w)).__name__ == "QBytesTensor" and rng.random() < 0.4:
+        _x2, w2, _b2 = build(ctx, oq, rng, cfg)
+        if type(fp.unwrap_param(w2)).__name__ == "QBytesTensor" and tuple(w2.shape) == tuple(w.shape):
+            with torch.no_grad():
+                _r, e1 = guarded("copy_", lambda: w.copy_(w2))
+            if e1 is None:
+                out, e2 = guarded("linear", F.linear, x, w, bias)
+                if e2 is None:
+                    ctx.count("products_after_inplace_weight_update")
+                    judge(ctx, cfg, "linear:after_inplace_weight_update", out, x, w, bias)
     # 3. the custom operator and each route function on the raw operands
     if not lowbit and type(fp.unwrap_param(w)).__name__ == "QBytesTensor" and not cfg["wk"].endswith("_lastaxis"):
         wi = fp.inner(fp.unwrap_param(w))[0]
